@@ -178,6 +178,29 @@ class Model:
             out.append(res)
         return out
 
+    def run_docs(self, docs):
+        """docs: nested {'tag', 'kids'}; returns per doc ('NOMACHINE', tag) | ('NOPARSE',) | ('NOEMIT',) | ('OK', nested [tag, [kids]])"""
+        def enc(d):
+            return '%d ( %s)' % (self.sym[d['tag']], ''.join(enc(k) + ' ' for k in d['kids']))
+
+        def dec(toks, i):
+            tag = self.name_of[int(toks[i])]
+            i += 2
+            kids = []
+            while toks[i] != ')':
+                k, i = dec(toks, i)
+                kids.append(k)
+            return [tag, kids], i + 1
+        out = []
+        for l in self.raw(['doc ' + enc(d) for d in docs]):
+            if l.startswith('NOMACHINE'):
+                out.append(('NOMACHINE', self.name_of[int(l.split()[1])]))
+            elif l in ('NOPARSE', 'NOEMIT'):
+                out.append((l,))
+            else:
+                out.append(('OK', dec(l.split(), 0)[0]))
+        return out
+
     def run_bag(self, cases):
         lines = ['bag %d %s' % (self.idx[c['type']], ' '.join(self.enc_op(o) for o in c['ops'])) for c in cases]
         out = []
